@@ -308,3 +308,40 @@ Proof.
   intros Hoff lines. destruct (add_lines_ok size offs) as [Hs H0].
   exact (unpack_correct lines off Hs H0 Hoff).
 Qed.
+
+(* ---------- the nearest-lower lookup of the source map at run time ---------- *)
+Lemma source_pos_nat_spec m ip :
+  (exists k, (k <= ip)%nat /\ sm_get m (Z.of_nat k) = Some (source_pos_nat m ip) /\
+             forall j, (k < j <= ip)%nat -> sm_get m (Z.of_nat j) = None) \/
+  (source_pos_nat m ip = 0 /\ forall j, (j <= ip)%nat -> sm_get m (Z.of_nat j) = None).
+Proof.
+  induction ip as [|n IH].
+  - cbn [source_pos_nat]. destruct (sm_get m (Z.of_nat 0)) as [p|] eqn:E.
+    + left. exists 0%nat. split; [lia|]. split; [exact E|]. intros j Hj. lia.
+    + right. split; [reflexivity|]. intros j Hj. assert (j = 0)%nat by lia. subst j. exact E.
+  - cbn [source_pos_nat]. destruct (sm_get m (Z.of_nat (S n))) as [p|] eqn:E.
+    + left. exists (S n). split; [lia|]. split; [exact E|]. intros j Hj. lia.
+    + destruct IH as [[k [Hk [Hg Hn]]]|[H0 Hn]].
+      * left. exists k. split; [lia|]. split; [exact Hg|]. intros j Hj.
+        destruct (Nat.eq_dec j (S n)) as [->|Hne]; [exact E|]. apply Hn. lia.
+      * right. split; [exact H0|]. intros j Hj.
+        destruct (Nat.eq_dec j (S n)) as [->|Hne]; [exact E|]. apply Hn. lia.
+Qed.
+
+(* the position returned for ip is the one recorded at the greatest recorded instruction offset
+   at or below ip; it is NoPos exactly when ip is negative or nothing is recorded at or below it
+   (or NoPos itself was recorded there) *)
+Theorem source_pos_spec m ip :
+  (0 <= ip /\ exists k, 0 <= k <= ip /\ sm_get m k = Some (source_pos m ip) /\
+                       forall j, k < j <= ip -> sm_get m j = None) \/
+  (source_pos m ip = 0 /\ forall j, 0 <= j <= ip -> sm_get m j = None).
+Proof.
+  unfold source_pos. destruct (Z.ltb_spec ip 0) as [Hneg|Hpos].
+  - right. split; [reflexivity|]. intros j Hj. lia.
+  - destruct (source_pos_nat_spec m (Z.to_nat ip)) as [[k [Hk [Hg Hn]]]|[H0 Hn]].
+    + left. split; [exact Hpos|]. exists (Z.of_nat k). split; [lia|]. split; [exact Hg|].
+      intros j Hj. specialize (Hn (Z.to_nat j) ltac:(lia)).
+      replace (Z.of_nat (Z.to_nat j)) with j in Hn by lia. exact Hn.
+    + right. split; [exact H0|]. intros j Hj. specialize (Hn (Z.to_nat j) ltac:(lia)).
+      replace (Z.of_nat (Z.to_nat j)) with j in Hn by lia. exact Hn.
+Qed.
